@@ -228,6 +228,30 @@ func (m *StorageMiddleware) PutObject(ctx context.Context, bucket storage.Bucket
 	return result, nil
 }
 
+// AppendObject emits the same event as the PutObject request an append is on
+// the wire (S3 delivers s3:ObjectCreated:Put for appends).
+func (m *StorageMiddleware) AppendObject(ctx context.Context, bucket storage.BucketName, key storage.ObjectKey, dataReader io.Reader, checksumInput *storage.ChecksumInput, opts *storage.AppendObjectOptions) (*storage.AppendObjectResult, error) {
+	var result *storage.AppendObjectResult
+	err := m.runWithNotifications(ctx, func(ctx context.Context) ([]ObjectEvent, error) {
+		var err error
+		result, err = m.Next.AppendObject(ctx, bucket, key, dataReader, checksumInput, opts)
+		if err != nil {
+			return nil, err
+		}
+		event := ObjectEvent{EventName: EventObjectCreatedPut, Bucket: bucket, Key: key, EventTime: time.Now().UTC()}
+		if result != nil {
+			event.ETag = &result.ETag
+			event.Size = &result.Size
+		}
+		m.fillObjectDetails(ctx, &event)
+		return []ObjectEvent{event}, nil
+	})
+	if err != nil {
+		return nil, err
+	}
+	return result, nil
+}
+
 func (m *StorageMiddleware) CopyObject(ctx context.Context, srcBucket storage.BucketName, srcKey storage.ObjectKey, dstBucket storage.BucketName, dstKey storage.ObjectKey, opts *storage.CopyObjectOptions) (*storage.CopyObjectResult, error) {
 	var result *storage.CopyObjectResult
 	err := m.runWithNotifications(ctx, func(ctx context.Context) ([]ObjectEvent, error) {
